@@ -222,9 +222,7 @@ class Gfa(Lines,GraphOperations,RGFA):
         raise gfapy.FormatError(
           "The file {} cannot be decoded as text\n".format(filename)+
           "Error: {}".format(err))
-    if self._line_queue:
-      self._version = self._version_guess
-      self.process_line_queue()
+    self.process_line_queue()
     if self._progress:
       self._progress_log_end("read_file")
     if self._vlevel >= 1:
